@@ -123,6 +123,99 @@ class _Render:
                 self.block(els, ind + 1)
 
 
+class _RenderArgs(_Render):
+    """'args' mode: control flow is driven by the function's PARAMETERS instead of oracle calls: ``if a3:`` / ``if a3 > 1:``,
+    ``while a3 > 0:`` (the body first decrements a3), ``for x3 in range(a3):``; traced calls mark every position."""
+
+    def __init__(self):
+        super().__init__("marked")
+        self.params: List[str] = []
+
+    def compound(self, c, ind: int, as_elif: bool = False):
+        kind, body, els = c
+        k = self.nk()
+        a = f"a{k}"
+        self.params.append(a)
+        if kind == "if":
+            test = a if k % 2 else f"{a} > 1"
+            self.emit(ind, f"{'elif' if as_elif else 'if'} {test}:")
+            self.block(body, ind + 1)
+            if els is not None:
+                if els[0] == "elif":
+                    self.compound(els[1], ind, as_elif=True)
+                else:
+                    self.emit(ind, "else:")
+                    self.block(els, ind + 1)
+        elif kind == "while":
+            self.emit(ind, f"while {a} > 0:")
+            self.emit(ind + 1, f"{a} -= 1")
+            self.block(body, ind + 1)
+            if els is not None:
+                self.emit(ind, "else:")
+                self.block(els, ind + 1)
+        else:
+            self.emit(ind, f"for x{k} in range({a}):")
+            self.block(body, ind + 1, loopvar=f"x{k}")
+            if els is not None:
+                self.emit(ind, "else:")
+                self.block(els, ind + 1)
+
+
+SIG_FORMS = 4
+
+
+def render_args(skel, form: int, name: str = "f") -> Tuple[str, List[str], int]:
+    """(source, parameter names, signature form).  Forms: 0 all positional; 1 last parameter has a default; 2 last parameter
+    is keyword-only with a default; 3 first parameter positional-only, *rest collects extras, **kw present."""
+    r = _RenderArgs()
+    r.block(skel, 1)
+    ps = r.params
+    if not ps:
+        sig = ""
+    elif form == 0:
+        sig = ", ".join(ps)
+    elif form == 1:
+        sig = ", ".join(ps[:-1] + [ps[-1] + "=1"])
+    elif form == 2:
+        sig = ", ".join(ps[:-1] + ["*", ps[-1] + "=2"])
+    else:
+        sig = ", ".join([ps[0], "/"] + ps[1:] + ["*rest", "**kw"])
+    return f"def {name}({sig}):\n" + "\n".join(r.lines) + "\n", ps, form
+
+
+def arg_programs(max_c: int) -> Iterator[Tuple[str, str, List[str], int]]:
+    """(label, source, params, form) for all skeletons with 1..max_c compounds, signature form cycling with the index."""
+    for c in range(1, max_c + 1):
+        for i, sk in enumerate(skeletons(c, True)):
+            form = i % SIG_FORMS
+            src, ps, form = render_args(sk, form)
+            yield f"A{c}/args{form}/{i}", src, ps, form
+
+
+def arg_calls(ps: List[str], form: int, values=(0, 1, 2)) -> Iterator[Tuple[tuple, dict]]:
+    """Exhaustive argument tuples over ``values`` in the calling conventions the signature form allows, plus ill-formed calls."""
+    import itertools as _it
+    n = len(ps)
+    for tup in _it.product(values, repeat=n):
+        if form in (0, 1, 3) or n == 0:
+            yield tup, {}
+        if form == 1 and n:
+            yield tup[:-1], {}                       # default used
+            yield tup[:-1], {ps[-1]: tup[-1]}         # by keyword
+        if form == 2 and n:
+            yield tup[:-1], {ps[-1]: tup[-1]}
+            yield tup[:-1], {}
+        if form == 0 and n:
+            yield (), dict(zip(ps, tup))              # all by keyword
+    # ill-formed calls must fail the same way
+    yield tuple(values[:1]) * (n + 1), {}
+    if n:
+        yield (), {}
+        yield tuple(values[:1]) * n, {"no_such_parameter": 1}
+    if form == 3 and n:
+        yield (), {ps[0]: 1}                          # positional-only passed by keyword
+
+
 def render(skel, mode: str = "marked", name: str = "f") -> str:
     r = _Render(mode)
     r.emit(0, f"def {name}():")
